@@ -44,6 +44,7 @@ type trace struct {
 	LabB  string            `json:"labB"`
 	AvisI bool              `json:"avisI"`
 	LabI  string            `json:"labI"`
+	Shape string            `json:"shape"`
 }
 
 type input struct {
@@ -84,7 +85,7 @@ type result struct {
 
 var base = map[string]string{
 	"q": "'", "d": "\"", "b": "`", "k": "\\", "D": "$", "E": "E", "m": "-", "s": "/", "a": "*",
-	"n": "\n", "r": "\r", "_": "\t", "w": "z", "u": "é", "W": "Z", "9": "1", "U": "_", ";": ";", "P": "__STR_0__", "J": "__IDENT_0__", "~": " ",
+	"n": "\n", "r": "\r", "_": "\t", "w": "z", "u": "é", "W": "Z", "9": "1", "U": "_", ";": ";", "P": "__STR_0__", "P1": "__STR_1__", "J": "__IDENT_0__", "~": " ",
 }
 
 var syms map[string]string
@@ -467,6 +468,9 @@ func runLex(in *input, res *result) {
 					} else if strings.Contains(text, "__IDENT_0__") {
 						cls = "identifier-placeholder-lookalike"
 					}
+					if tr.Rt {
+						cls = "unmodelled:" + cls
+					}
 					addV("unmask-not-inverse:"+cls, lexWitness{Symbols: symtxt, SQL: text, Pipeline: pipe,
 						Note: "Unmask(Mask(s)) = " + short(ar.roundTrip) + " (" + ar.err + ")"})
 					keys["rt:"+cls+"|"+symtxt] = true
@@ -512,6 +516,11 @@ func runLex(in *input, res *result) {
 					}
 					w2 := w
 					w2.Note = "Unmask(Mask(s)) = " + short(ar.roundTrip)
+					if tr.Rt {
+						// the model of UnmaskStringLiterals (first occurrence for a string mask, all occurrences for an
+						// identifier mask) predicts a faithful round trip here: a different mechanism
+						cls = "unmodelled:" + cls
+					}
 					addV("unmask-not-inverse:"+cls, w2)
 					keys["rt:"+cls] = true
 				}
